@@ -434,6 +434,11 @@ def _accumulator(f: Func) -> Optional[str]:
                     for nm in names_in(n.value):
                         if nm in appended:
                             return nm
+                    # no append anywhere: the stored local itself, when it is built by a comprehension
+                    if not appended and isinstance(n.value, ast.Name):
+                        for d in own_nodes(f.node):
+                            if isinstance(d, (ast.Assign, ast.AnnAssign)) and getattr(d, "value", None) is not None and isinstance(d.value, (ast.ListComp, ast.GeneratorExp)) and any(isinstance(t2, ast.Name) and t2.id == n.value.id for t2 in (d.targets if isinstance(d, ast.Assign) else [d.target])):
+                                return n.value.id
     return None
 
 
@@ -565,12 +570,73 @@ def every_line_converted(ctx: Ctx, rep: Report, rid: str = "R12.8") -> None:
             rep.ok(f"{q}: every line is converted", f"the lines ({', '.join(sorted(lines_vars))}) all reach {conv}; no early exit, no slicing", where=where(f))
 
 
+def _members_through_helper(ctx: Ctx, rep: Report, f: Func, q: str) -> bool:
+    """The member loop written as `[self._conv(s) for s in items]` (+ a filter that drops the None results): the same
+    obligation on the paths of the helper - a path that returns None (member skipped) logs the item or is the documented
+    description line; every other path returns the member or raises.  False when the shape is not this one."""
+    from .common import callee_of_self_call
+
+    for n in own_nodes(f.node):
+        if not (isinstance(n, (ast.ListComp, ast.GeneratorExp)) and len(n.generators) == 1 and isinstance(n.generators[0].target, ast.Name) and not n.generators[0].ifs):
+            continue
+        call = n.elt
+        if not (isinstance(call, ast.Call) and call.args and src(call.args[0]) == n.generators[0].target.id):
+            continue
+        m = callee_of_self_call(ctx, f, call)
+        if m is None:
+            continue
+        mcfg = ctx.cfg(m)
+        prm = m.params[-1] if len(call.args) == 1 else m.params[1 if m.cls is not None else 0]
+        derived = {prm}
+        grow = True
+        while grow:
+            grow = False
+            for x in own_nodes(m.node):
+                if isinstance(x, ast.Assign):
+                    tn = set()
+                    for t in x.targets:
+                        tn |= {y.id for y in ast.walk(t) if isinstance(y, ast.Name)}
+                    if names_in(x.value) & derived and not tn <= derived:
+                        derived |= tn
+                        grow = True
+        npaths = 0
+        for pi in function_paths(mcfg):
+            if pi.raises:
+                continue
+            if pi.ret is not None and not (isinstance(pi.ret, ast.Constant) and pi.ret.value is None):
+                continue  # the member is returned
+            npaths += 1
+            rep.instance()
+            env: Dict[str, ast.AST] = {}
+            for node, lab in pi.nodes:
+                if node.kind == "stmt" and isinstance(node.ast, ast.Assign) and isinstance(node.ast.targets[0], ast.Name):
+                    env[node.ast.targets[0].id] = node.ast.value
+            log = _path_logs(pi.nodes, env, derived, LOG_ANY)
+            desc = None
+            for node, lab in pi.nodes:
+                if node.kind == "cond" and lab == "T" and isinstance(node.ast, ast.Call) and isinstance(node.ast.func, ast.Attribute) and node.ast.func.attr == "startswith" and node.ast.args:
+                    if ctx.folder.fold(node.ast.args[0], m.module) == "description ":
+                        desc = node.ast
+            if log is not None:
+                rep.ok(f"{q}: member skipped after {snippet(log, 40)} (in {m.qualname})", "a log record names it", where=where(m, log))
+            elif desc is not None:
+                rep.ok(f"{q}: member skipped by {snippet(desc, 40)} (in {m.qualname})", "documented description line", where=where(m, desc))
+            else:
+                rep.violation(q, f"member skipped silently in {m.qualname}", "a path of the per-member helper returns None without logging the member and without raising", where(m), inp="an address-group body line that is not an address")
+        if npaths == 0:
+            rep.note(f"R12.5 {q}: every path of {m.qualname} returns the member or raises")
+        return True
+    return False
+
+
 def r12_5(ctx: Ctx, rep: Report) -> None:  # noqa: C901
     rep.rule("R12.5")
     for q in ("AddrGroup.line.setter", "AddrGroup.items.setter"):
         f = ctx.func(q)
         cfg = ctx.cfg(f)
         loops = [n for n in cfg.live if n.kind == "for"]
+        if not loops and _members_through_helper(ctx, rep, f, q):
+            continue
         rep.require(bool(loops), f"{q}: member loop vanished")
         # accumulator = the list stored to self.items at the end
         acc = _accumulator(f)
